@@ -677,6 +677,30 @@ func genProto() (string, error) {
 	}
 	fmt.Fprintf(&b, "/-- every assignment to a `.Nonce` field in fsm/*.go -/\ndef accountNonceWrites : List String := %s\n", strList(nonceWrites))
 	fmt.Fprintf(&b, "/-- every `Account{...}` literal in fsm/*.go with the fields it sets -/\ndef accountLiterals : List String := %s\n\n", strList(accountLits))
+	// what VerifyRLPBytes compares to tie the wrapper to the raw Ethereum transaction: the methods called
+	// on the rebuilt transaction and on the submitted one (GetHash covers the Signature container,
+	// GetSignBytes does not)
+	efile, err := g.ParseFile(filepath.Join(*repo, "fsm/ethereum.go"))
+	if err != nil {
+		return "", err
+	}
+	vr := efile.FindFunc("StateMachine", "VerifyRLPBytes")
+	if vr == nil {
+		return "", fmt.Errorf("fsm/ethereum.go: VerifyRLPBytes not found")
+	}
+	var digests []string
+	ast.Inspect(vr.Body, func(n ast.Node) bool {
+		if ce, ok := n.(*ast.CallExpr); ok {
+			if se, ok := ce.Fun.(*ast.SelectorExpr); ok && len(ce.Args) == 0 {
+				if id, ok := se.X.(*ast.Ident); ok && (id.Name == "compare" || id.Name == "tx") {
+					digests = append(digests, id.Name+"."+se.Sel.Name)
+				}
+			}
+		}
+		return true
+	})
+	fmt.Fprintf(&b, "/-- the digests `VerifyRLPBytes` takes of the rebuilt and of the submitted transaction -/\ndef rlpBindingDigests : List String := %s\n", strList(digests))
+	fmt.Fprintf(&b, "def src_VerifyRLPBytes : String := %q\n\n", g.StmtsText(vr.Body.List))
 	// 4. public-key decoding by length (lib/crypto/key.go)
 	kf, err := g.ParseFile(filepath.Join(*repo, "lib/crypto/key.go"))
 	if err != nil {
